@@ -165,6 +165,7 @@ def run_shard(shard):
                     check(st, ldoc, rdoc, ltext, rtext, shapes, arrays, aoh)
         if li == 0:
             notation_family(st)
+            interleaved_family(st)
         if li == lo:
             st.sample({"lhs": ltext, "rhs": corpus.render(neighbours(lspec)[0])
                        if neighbours(lspec) else ltext, "arrays": "position",
@@ -195,6 +196,46 @@ def notation_family(st):
             for aoh in AOH:
                 check(st, ldoc, rdoc, ltext, rtext, ("notation", "notation"),
                       arrays, aoh)
+
+
+def interleaved_family(st):
+    """Two comparisons in flight at once: each Differ's report is that of its
+    own pair whatever other Differ compared something in between (all four
+    orders of compare / compare / report / report)."""
+    texts = [("a: 1\nl: [x, y]\n", "a: 2\nl: [x, y]\n"),
+             ("a: 1\nl: [x, y]\n", "a: 1\nl: [x, y]\n"),
+             ("- {id: 1, v: x}\n", "- {id: 1, v: y}\n- {id: 2, v: z}\n")]
+    for arrays in ARRAYS:
+        for aoh in AOH[:2]:
+            cfg = DifferConfig(corpus.LOG, SimpleNamespace(arrays=arrays,
+                                                           aoh=aoh))
+
+            def solo(pair):
+                d = Differ(cfg, corpus.LOG, corpus.load(pair[0]))
+                d.compare_to(corpus.load(pair[1]))
+                return [str(e) for e in d.get_report()]
+            for i, first in enumerate(texts):
+                for second in texts[:i] + texts[i + 1:]:
+                    st.evaluations += 1
+                    st.transitions += 4
+                    st.validated += 1
+                    st.states += 1
+                    want = (solo(first), solo(second))
+                    d1 = Differ(cfg, corpus.LOG, corpus.load(first[0]))
+                    d2 = Differ(cfg, corpus.LOG, corpus.load(second[0]))
+                    d1.compare_to(corpus.load(first[1]))
+                    d2.compare_to(corpus.load(second[1]))
+                    got = ([str(e) for e in d1.get_report()],
+                           [str(e) for e in d2.get_report()])
+                    st.outcomes["equal"] += 1
+                    if got != want:
+                        st.fail("interleaved|%s/%s" % (arrays, aoh),
+                                {"lhs": first[0], "rhs": first[1],
+                                 "arrays": arrays, "aoh": aoh,
+                                 "interleaved_with": list(second)},
+                                repr(want)[:300], repr(got)[:300])
+                    else:
+                        st.sig("interleaved", i, arrays, aoh)
 
 
 # ---------------------------------------------------------------- data oracle
@@ -494,6 +535,11 @@ def describe(entries):
 
 def replay(case):
     st = core.Stats(None)
+    if case.get("interleaved_with"):
+        interleaved_family(st)
+        for lst in st.fails.values():
+            return lst[0]
+        return None
     check(st, corpus.load(case["lhs"]), corpus.load(case["rhs"]),
           case["lhs"], case["rhs"], ("?", "?"), case["arrays"], case["aoh"])
     for lst in st.fails.values():
